@@ -216,6 +216,10 @@ def judge_baseline(case, info, out, stats, fps):
             last = calls[-1] if calls else None
             if last is None or (b.success, b.data, b.exception) != (last["success"], last["data"], last["exception"]):
                 out.append(V("stale_bucket", ctx, f"{id_}: Job.result {b.success, b.data[:40], b.exception} is not the last stored outcome {last and (last['success'], last['data'][:40], last['exception'])}", bk))
+            # every finished iteration wrote its outcome (the first one's must not stay there for ever)
+            finished = len([x for x in info["exec_log"].get(id_, []) if x[0] in ("actor_end", "actor_raise")])
+            if len(calls) < finished - 1:
+                out.append(V("stale_bucket", ctx + "/store-count", f"{id_}: {finished} iterations finished, {len(calls)} outcomes were stored (the bucket holds {b.data[:30]!r})", bk))
             seq = [(c["success"], c["data"]) for c in calls[:3]]
             want = [(True, '"it1"'), (False, "it2"), (True, '"it3"')][: len(seq)]
             if seq != want:
